@@ -16,6 +16,15 @@ CHECKS = {
  "C19": ("exploration", "runtime monitoring: adversarially related transcript pairs judged against an independent canonical encoding; commitment alteration lattice",
          "Seeded generation of typed item sequences and related pairs (boundary/domain shifts, split/merge, retyping, permutation, framing pasted as bytes crafted against weakened framings); a digest collision between sequences whose canonical encodings differ is the violation; commitments must refuse every altered tuple/decommitment.",
          "Abstract identity of items computed by harness code; blake3 collision resistance.", "5/C19"),
+ "C10": ("exploration", "runtime monitoring: direct drive of all 15 provers/verifiers with reflection-generated perturbations of every public input, proof field and the context",
+         "Completeness on a boundary lattice of witnesses (0, +-1, +-(2^l-1), random, scalar 1/q-1) and binding by substitution: every public-input field replaced by another valid instance's, same-typed inputs swapped, context changed, every proof field replaced by the same field of another valid proof (same and other statement) and by +-1/negation/zero, and a witness 600 bits beyond the range; an accepted perturbed triple is the violation.",
+         "Soundness is probed by substitution, not established; panics inside Verify are tallied as not-accepted.", "5/C10"),
+ "C12": ("exploration", "differential runtime monitoring of Paillier, CRT exponentiation and MtA against a math/big reference",
+         "Bit-exact comparison of EncWithNonce/Add/Mul with the reference, Dec inverse, randomness recovery, acceptance set of ValidateCiphertexts/Dec, refusal outside [-(N-1)/2,(N-1)/2], Modulus.Exp/ExpI on edge operands, and alpha+beta=a*b over the integers for MtA on a scalar lattice with verified proofs.",
+         "Trusts verif/ref Paillier; keys from the prime pool.", "5/C12"),
+ "C13": ("exploration", "runtime monitoring: direct drive of internal/ot with reflective access to results and reflection-driven single-field message alterations",
+         "Defining relations of random/correlated/extended/additive OT for every batch index and degenerate choice vectors, products on a boundary lattice with setup reuse, and single-field alterations of all setup and online messages with the error-or-still-correct oracle.",
+         "Reads unexported result fields with reflect+unsafe; oracle arithmetic is math/big.", "5/C13"),
  "C16": ("exploration", "differential runtime monitoring against independent big-integer ECDSA / BIP-340 / recovery references",
          "Seeded differential exploration: every stand-alone primitive is run on valid signatures and a lattice of single-field perturbations and its verdict compared with an independent reference; held on what was observed.",
          "Trusts verif/ref (math/big, crypto/sha256), itself checked against BIP-340 vectors and a BIP-32 vector at start-up.", "5/C16"),
